@@ -341,6 +341,7 @@ def run_impl(misc, c):
                 sg = matrix(0.0, (sum(d["s"]), 1))
                 res["ret"] = misc.max_step(x, d, mnl, sg)
                 res["sigma"] = list(sg)
+                res["xafter"] = list(x)
             else:
                 res["ret"] = misc.max_step(x, d, mnl)
     except Exception as e:
@@ -429,6 +430,22 @@ def run(tier, seed, replay=None):
                 t = Fr(c["t"][0], c["t"][1])
                 if not close(r["ret"], t, scale=sc):
                     bad = "returned %r, the boundary step is %s" % (r["ret"], t)
+                elif c["sigma"]:
+                    # eigen-decomposition of the 's' blocks: X q_i = sigma_i q_i, Q'Q = I (exact rational evaluation)
+                    o = mnl + d["l"] + sum(d["q"]); o2 = 0
+                    xin = [Fr(a[0], a[1]) for a in c["x"]]
+                    tol = Fr(1, 10 ** 10) * (1 + sc)
+                    for m in d["s"]:
+                        Q = [[Fr(float(r["xafter"][o + j * m + i])) for j in range(m)] for i in range(m)]
+                        sgm = [Fr(float(v)) for v in r["sigma"][o2:o2 + m]]
+                        X = [[xin[o + min(i, j) * m + max(i, j)] for j in range(m)] for i in range(m)]
+                        for j in range(m):
+                            for i in range(m):
+                                if abs(sum(X[i][t_] * Q[t_][j] for t_ in range(m)) - sgm[j] * Q[i][j]) > tol:
+                                    bad = "sigma/eigenvectors of 's' block of order %d do not satisfy X q = sigma q" % m
+                                if abs(sum(Q[t_][i] * Q[t_][j] for t_ in range(m)) - (1 if i == j else 0)) > tol:
+                                    bad = "eigenvectors of 's' block of order %d are not orthonormal" % m
+                        o += m * m; o2 += m
             elif k == "pack":
                 s2 = math.sqrt(2.0)
                 if c["variant"] in ("pack", "pack2"):
